@@ -288,6 +288,33 @@ def closure_templates(rng):
                   For(["i"], Range(Int(0), Int(c)), Block([MCall(Id("fs"), "push", [Fn([], Block([Bin("*", Id("i"), Int(a))]), free=["i"])])])),
                   Asg("out", List([])),
                   For(["g"], Id("fs"), Block([MCall(Id("out"), "push", [App(Id("g"), [])])])), Id("out")]))
+    # ... also when the function is first assigned to a name that every iteration assigns again (the functions made earlier
+    # keep their own captured values and default values)
+    reset_ids()
+    out.append(P([Asg("fs", List([])),
+                  For(["i"], Range(Int(0), Int(c)), Block([Asg("g", Fn([Param("x")], Block([Bin("+", Bin("*", Id("i"), Int(a)), Id("x"))]), free=["i"])),
+                                                            MCall(Id("fs"), "push", [Id("g")])])),
+                  Asg("out", List([])),
+                  For(["h"], Id("fs"), Block([MCall(Id("out"), "push", [App(Id("h"), [Int(b)])])])), Id("out")]))
+    reset_ids()
+    out.append(P([Asg("mk", Fn([Param("count")], Block([
+                      Asg("cs", List([])), Asg("n", Int(0)),
+                      While(Cmp(["<"], [Id("n"), Id("count")]), Block([Asg("counter", Fn([], Block([Bin("+", Id("n"), Int(a))]), free=["n"])),
+                                                                        MCall(Id("cs"), "push", [Id("counter")]), OpAsg("n", "+", Int(1))])),
+                      Id("cs")]))),
+                  Asg("out", List([])),
+                  For(["h"], App(Id("mk"), [Int(c)]), Block([MCall(Id("out"), "push", [App(Id("h"), [])])])), Id("out")]))
+    reset_ids()
+    out.append(P([Asg("fs", List([])),
+                  For(["i"], Range(Int(0), Int(c)), Block([Asg("g", Fn([Param("x", "def")], Block([Bin("+", Id("x"), Int(a))]), defaults=[Id("i")])),
+                                                            MCall(Id("fs"), "push", [Id("g")])])),
+                  Asg("out", List([])),
+                  For(["h"], Id("fs"), Block([MCall(Id("out"), "push", [App(Id("h"), [])])])), Id("out")]))
+    reset_ids()
+    out.append(P([Asg("first", Null()),
+                  For(["i"], Range(Int(1), Int(c + 1)), Block([Asg("sq", Fn([], Block([Bin("*", Id("i"), Id("i"))]), free=["i"])),
+                                                                If([Cmp(["=="], [Id("i"), Int(1)])], [Block([Asg("first", Fn([], Block([App(Id("sq"), [])]), free=["sq"]))])])])),
+                  App(Id("first"), [])]))
     # nested closures: inner captures from the middle frame, which captured from the outer
     reset_ids()
     inner = Fn([Param("q")], Block([Bin("+", Bin("+", Id("q"), Id("p")), Id("x"))]), free=["p", "x"])
